@@ -278,6 +278,17 @@ class ExprBuilder:
             if name == "0":
                 return ("bin", e[1][:-len("WithOverflow")], e[2], e[3])
             return ("overflow", e)
+        # a field of a nested *new* struct that groups fields of a pinned struct (mir.flatten_new_
+        # nested_structs) reached through a reference held in a local: `(&self.g).f` is `self.f`
+        if of and e[0] == "field":
+            fg = getattr(self, "_fgroups", None)
+            if fg is None:
+                prog = getattr(self.body, "program", None)
+                raw = (getattr(prog, "doc", None) or {}).get("_flatten_groups") or {}
+                fg = self._fgroups = {(v[0], k.split("|", 1)[1]): set(v[1]) for k, v in raw.items()}
+            inner = fg.get((of, e[2]))
+            if inner and name in inner:
+                return ("field", e[1], name)
         # field of a freshly built aggregate
         if e[0] == "agg":
             label, ops, names = e[1], e[2], e[3]
